@@ -7,6 +7,11 @@
    (1 3 children idx)           -> (min_sizes max_sizes parent_shift) of Quotient.__init__ | -2
    (2 form children idx N)      -> (shifts (reads at 0) ... (reads at N)), reads as sorted sets
                                    form 0 union, 1 product, 2 reverse of union, 3 reverse of product
+   (3 form strat d N)           -> (shifts (reads at 0) ... (reads at N)) of a DERIVED rule form:
+                                   form 4 equivalence rule, 5 equivalence rule of the reverse rule,
+                                   6 equivalence path; strat 0 a DisjointUnionStrategy, 1 a
+                                   CartesianProductStrategy; d = (min_size is_atom) of the one class
+                                   handed to strategy.shifts; N = -1 gives the shifts only
    children = ((min_size is_atom) ...), an absent bound is written ().                        *)
 From Coq Require Import ZArith List Bool.
 From CSS Require Import Base.Sx Gen.Prelude Gen.Compositions Gen.ReverseShifts Gen.ProductShifts
@@ -55,6 +60,13 @@ Definition run_c10 (inp : sx) : sx :=
                   I (quotient_parent_shift c idx)]
           else INDEX_ERROR
       end
+  | 3 =>
+      let form := sx_Z (sx_nth inp 1) in
+      let strat := sx_Z (sx_nth inp 2) in
+      let d := dec_child (sx_nth inp 3) in
+      let N := sx_Z (sx_nth inp 4) in
+      L (of_Zs (derived_shifts strat d)
+         :: map (fun n => enc_reads (derived_reads form d n)) (py_range 0 (N + 1)))
   | _ =>
       let form := sx_Z (sx_nth inp 1) in
       let c := dec_children (sx_nth inp 2) in
